@@ -26,6 +26,26 @@ CLAIMED = {
              "boundary for process pools); pre-emption only at pool operations "
              "and inside the harness reader/function; find() is assumed correct "
              "for non-boundary periods (C01)."),
+    "C05": dict(
+        category="exploration", design_ref="DESIGN.md 3/C05",
+        technique="deterministic simulation: seeded schedule + fault search "
+                  "over parent/worker processes, result queues and reader "
+                  "pools of collocate_filesets, checked against a brute-force "
+                  "collocation of all points",
+        text="The whole find -> match -> align -> collocate -> queue -> bundle "
+             "-> write pipeline runs inside one process on fake "
+             "Process/Queue/ThreadPool objects whose every interleaving, queue "
+             "delivery delay, reader latency and clock jump comes from one "
+             "seeded tape (1-4 processes, all bundle modes, memory/fileset/"
+             "search output, period cuts, one unreadable file). The multiset "
+             "of reported pairs is compared with a brute force over all "
+             "points; liveness = the generator terminates. Sampled, not "
+             "enumerated.",
+        note="Trusted: the process/queue/pool models in sim/mp.py and "
+             "sim/executors.py (bounded queue, feeder delay, child exits only "
+             "after its items are in the pipe); start/end always explicit; "
+             "border pairs within 1 mm of max_distance are not verdict "
+             "relevant; worker kills are not injected."),
 }
 
 NOT_APPLICABLE = {
